@@ -62,7 +62,16 @@ def verify_contract(db, cc, target=None, prefix=None, engine_cls=Engine, fixed=N
     cov.expect_sat = True
     ex.obligations.append(cov)
     ex.number_loops(fn)
-    outs = ex.exec_block(fn.body, st)
+    try:
+        outs = ex.exec_block(fn.body, st)
+    except Unsupported as e:
+        # obligations generated before the function left the supported subset are still worth discharging: a FAILED one
+        # is reported; discharged ones are not counted (the function is undecided as a whole)
+        for ob in ex.obligations:
+            have = set(h.get_id() for h in ob.hyps)
+            ob.hyps = [a for a in ex.axioms if a.get_id() not in have] + ob.hyps
+        e.partial = (ex, [o for o in ex.obligations if not o.expect_sat], fi)
+        raise
     n_ret = 0
     for (s2, oc, pl) in outs:
         if oc in (NORMAL, RETURN):
